@@ -1,4 +1,132 @@
 import WireV.Front
-import WireV.Path
+import WireP.Lemmas.FrontProofs
+/-! # C12 — field selection of `wire.Struct` / `wire.FieldsOf`
+
+Model: `WireV.checkField`, `WireV.allFields`, `WireV.structArgs`, `WireV.structProviderArgs`,
+`WireV.fieldsOfArgs` (parse.go: checkField, allFields, processStructProvider, processFieldsOf).
+A field argument is either a string literal denoting `s` (`.str s`) or anything else (`.other`);
+the struct's fields are given in declaration order with their `wire:"-"` tag (`prevented`). -/
 namespace WireP.C12
+open WireV
+
+/-! ## `checkField` -/
+
+/-- field names are matched exactly as written -/
+theorem checkField_exact {fs : List FieldDecl} {s : String} {f : FieldDecl} :
+    checkField fs (.str s) = .ok f → f ∈ fs ∧ f.name = s ∧ f.prevented = false :=
+  WireP.FrontProofs.checkField_exact
+
+theorem checkField_unknown {fs : List FieldDecl} {s : String} :
+    (∀ f ∈ fs, f.name ≠ s) → checkField fs (.str s) = .error (.notField s) :=
+  WireP.FrontProofs.checkField_unknown
+
+theorem checkField_unknown_iff {fs : List FieldDecl} {s : String} :
+    checkField fs (.str s) = .error (.notField s) ↔ ∀ f ∈ fs, f.name ≠ s :=
+  WireP.FrontProofs.checkField_unknown_iff
+
+theorem checkField_prevented {fs : List FieldDecl} {s : String} {f : FieldDecl} :
+    (fs.map (·.name)).Nodup → f ∈ fs → f.name = s → f.prevented = true →
+      checkField fs (.str s) = .error (.prevented s) :=
+  WireP.FrontProofs.checkField_prevented
+
+theorem checkField_found {fs : List FieldDecl} {f : FieldDecl} :
+    (fs.map (·.name)).Nodup → f ∈ fs → f.prevented = false → checkField fs (.str f.name) = .ok f :=
+  WireP.FrontProofs.checkField_found
+
+/-- anything that is not a string literal is rejected -/
+theorem checkField_nonliteral (fs : List FieldDecl) : checkField fs .other = .error .notString :=
+  WireP.FrontProofs.checkField_nonliteral fs
+
+/-- matching is case sensitive: `"Foo"` selects the second field, `"FOO"` is not a field -/
+theorem checkField_case_sensitive :
+    checkField [⟨"foo", 0, false⟩, ⟨"Foo", 1, false⟩] (.str "Foo") = .ok ⟨"Foo", 1, false⟩ ∧
+    checkField [⟨"foo", 0, false⟩, ⟨"Foo", 1, false⟩] (.str "FOO") = .error (.notField "FOO") := by
+  decide
+
+/-! ## `wire.Struct` -/
+
+/-- `"*"`: all fields not tagged `wire:"-"`, in declaration order -/
+theorem structArgs_star (fs : List FieldDecl) :
+    structArgs fs [.str "*"] = .ok (fs.filter (fun f => !f.prevented)) :=
+  WireP.FrontProofs.structArgs_star fs
+
+/-- otherwise: exactly the named fields, in written order -/
+theorem structArgs_named {fs : List FieldDecl} {args : List FieldArg} {sel : List FieldDecl} :
+    allFields args = false → structArgs fs args = .ok sel →
+      sel.length = args.length ∧ ∀ (i : Nat) a f, args[i]? = some a → sel[i]? = some f →
+        a = FieldArg.str f.name ∧ f ∈ fs ∧ f.prevented = false :=
+  WireP.FrontProofs.structArgs_named
+
+theorem structArgs_rejects {fs : List FieldDecl} {args : List FieldArg} {a : FieldArg} :
+    allFields args = false → a ∈ args →
+      (a = .other ∨ ∃ s, a = .str s ∧ ((∀ f ∈ fs, f.name ≠ s) ∨
+        ∃ f ∈ fs, f.name = s ∧ f.prevented ∧ (fs.map (·.name)).Nodup)) →
+      ∃ e, structArgs fs args = .error e :=
+  WireP.FrontProofs.structArgs_rejects
+
+/-- `structProviderArgs` = `structArgs` + the duplicate-type test -/
+theorem structProviderArgs_ok_iff {fs : List FieldDecl} {args : List FieldArg} {sel : List FieldDecl} :
+    structProviderArgs fs args = .ok sel ↔ structArgs fs args = .ok sel ∧ (sel.map (·.ty)).Nodup :=
+  WireP.FrontProofs.structProviderArgs_ok_iff
+
+theorem structProviderArgs_types_nodup {fs : List FieldDecl} {args : List FieldArg} {sel : List FieldDecl} :
+    structProviderArgs fs args = .ok sel → (sel.map (·.ty)).Nodup :=
+  WireP.FrontProofs.structProviderArgs_types_nodup
+
+/-- two selected fields of identical type are rejected, naming a type that occurs twice -/
+theorem structProviderArgs_dup_rejected {fs : List FieldDecl} {args : List FieldArg} {sel : List FieldDecl} :
+    structArgs fs args = .ok sel → ¬ (sel.map (·.ty)).Nodup →
+      ∃ t, structProviderArgs fs args = .error (.dup t) ∧ 2 ≤ (sel.map (·.ty)).count t :=
+  WireP.FrontProofs.structProviderArgs_dup_rejected
+
+theorem structProviderArgs_error_passes {fs : List FieldDecl} {args : List FieldArg} {e : FieldErr} :
+    structArgs fs args = .error e → structProviderArgs fs args = .error e :=
+  WireP.FrontProofs.structProviderArgs_error_passes
+
+/-! ## `wire.FieldsOf` -/
+
+theorem fieldsOfArgs_spec {fs : List FieldDecl} {args : List FieldArg} {sel : List FieldDecl} :
+    args.length ≤ fs.length → fieldsOfArgs fs args = .ok sel →
+      sel.length = args.length ∧ ∀ (i : Nat) a f, args[i]? = some a → sel[i]? = some f →
+        a = FieldArg.str f.name ∧ f ∈ fs ∧ f.prevented = false :=
+  WireP.FrontProofs.fieldsOfArgs_spec
+
+theorem fieldsOfArgs_tooMany {fs : List FieldDecl} {args : List FieldArg} :
+    fs.length < args.length → fieldsOfArgs fs args = .error .tooMany :=
+  WireP.FrontProofs.fieldsOfArgs_tooMany
+
+theorem fieldsOfArgs_rejects {fs : List FieldDecl} {args : List FieldArg} {a : FieldArg} :
+    a ∈ args →
+      (a = .other ∨ ∃ s, a = .str s ∧ ((∀ f ∈ fs, f.name ≠ s) ∨
+        ∃ f ∈ fs, f.name = s ∧ f.prevented ∧ (fs.map (·.name)).Nodup)) →
+      ∃ e, fieldsOfArgs fs args = .error e :=
+  WireP.FrontProofs.fieldsOfArgs_rejects
+
+/-- `"*"` has no special meaning for `wire.FieldsOf` -/
+theorem fieldsOfArgs_star_literal {fs : List FieldDecl} :
+    (∀ f ∈ fs, f.name ≠ "*") → 1 ≤ fs.length → fieldsOfArgs fs [.str "*"] = .error (.notField "*") :=
+  WireP.FrontProofs.fieldsOfArgs_star_literal
+
+/-! ## non-vacuity -/
+
+def exFs : List FieldDecl := [⟨"A", 1, false⟩, ⟨"b", 2, true⟩, ⟨"C", 3, false⟩, ⟨"D", 1, false⟩]
+
+example : (exFs.map (·.name)).Nodup := by decide
+example : checkField exFs (.str "C") = .ok ⟨"C", 3, false⟩ := by decide
+example : checkField exFs (.str "b") = .error (.prevented "b") := by decide
+example : checkField exFs (.str "B") = .error (.notField "B") := by decide
+example : structArgs exFs [.str "*"] = .ok [⟨"A", 1, false⟩, ⟨"C", 3, false⟩, ⟨"D", 1, false⟩] := by decide
+example : allFields [.str "C", .str "A"] = false := by decide
+example : structArgs exFs [.str "C", .str "A"] = .ok [⟨"C", 3, false⟩, ⟨"A", 1, false⟩] := by decide
+example : structProviderArgs exFs [.str "C", .str "A"] = .ok [⟨"C", 3, false⟩, ⟨"A", 1, false⟩] := by decide
+example : structArgs exFs [.str "A", .str "D"] = .ok [⟨"A", 1, false⟩, ⟨"D", 1, false⟩] := by decide
+example : structProviderArgs exFs [.str "A", .str "D"] = .error (.dup 1) := by decide
+example : structProviderArgs exFs [.str "*"] = .error (.dup 1) := by decide
+example : structArgs exFs [.str "A", .other] = .error .notString := by decide
+example : structArgs exFs [.str "A", .str "b"] = .error (.prevented "b") := by decide
+example : structArgs exFs [.str "*", .str "A"] = .error (.notField "*") := by decide
+example : fieldsOfArgs exFs [.str "D", .str "A"] = .ok [⟨"D", 1, false⟩, ⟨"A", 1, false⟩] := by decide
+example : fieldsOfArgs exFs [.str "A", .str "A", .str "A", .str "A", .str "A"] = .error .tooMany := by decide
+example : fieldsOfArgs exFs [.str "*"] = .error (.notField "*") := by decide
+
 end WireP.C12
